@@ -17,7 +17,7 @@ done
   mods=$(find IndicatifModel -name '*.lean' | sed 's#/#.#g; s#\.lean$##' | tr '\n' ' ')
   lake build $mods driver )
 sed "s#@REPO@#$REPO#" harness/Cargo.toml.in > harness/Cargo.toml
-[ -f harness/Cargo.lock ] || cp "$REPO/Cargo.lock" harness/Cargo.lock
+[ -f harness/Cargo.lock ] || cp "$REPO/Cargo.lock" harness/Cargo.lock 2>/dev/null || cp harness/Cargo.lock.in harness/Cargo.lock
 ( cd harness && cargo build --offline --release --quiet )
 # the variant of the harness with the crate feature improved_unicode (stream C14U)
 ( cd harness && cargo build --offline --quiet --release --features improved --target-dir target-improved )
